@@ -4,29 +4,31 @@ CONSTANTS
   Joiners = {"n3"}
   Leavers = {"n2"}
   Rejoiners = {"n1"}
-  Profile = "table"
+  Profile = "all"
   Variant = "fixed"
   Gran = "fine"
   MaxJobs = 3
   MaxQueue = 2
-  BJoin = 2
+  BJoin = 1
   BRejoin = 0
-  BLeave = 1
-  BDup = 1
+  BLeave = 0
+  BDup = 0
   BErr = 1
-  BUnknown = 1
+  BUnknown = 0
   BAbort = 1
-  BSendFail = 1
+  BSendFail = 0
   Depth = 0
-  Locks = FALSE
-  HandlerReadsState = FALSE
+  Locks = TRUE
+  HandlerReadsState = TRUE
 SPECIFICATION FairSpec
 INVARIANT TypeOK
 INVARIANT AtMostOneJob
 INVARIANT DoneOnlyIfOk
 INVARIANT NoHandlerStuck
-INVARIANT QuiescentClean
-INVARIANT CanStepAgrees
 PROPERTY MembershipOnlyAfterAllOk
 PROPERTY RefinesAbs
 CHECK_DEADLOCK FALSE
+PROPERTY LeavesResizing
+PROPERTY JobEnds
+PROPERTY AbsLive
+INVARIANT NoLockCycle
